@@ -345,3 +345,4 @@ def run(chk):
     redirect_set(chk, prog, st)
     shared.nothing_after_body(chk, prog, "R6")
     shared.response_reads(chk, prog, "R7.reads")
+    shared.header_line_split(chk, prog, "R7.header_split", "humphrey::http::response::Response::from_stream")
